@@ -821,26 +821,34 @@ theorem C18_Log_roundtrip (cfg : Cfg) (g : cfg.strict = true ∨ cfg.kind = .buf
     ∃ bs, writeLog l = some bs ∧ readLog cfg bs = .ok l [] :=
   ⟨_, writeLog_eq l h, readLog_enc cfg g l h⟩
 
-/-- The log reader takes ANY error that wraps io.EOF as the end of the log, for every reader kind
-    and also with the repaired size-prefixed readers: the header event followed by the four bytes
-    `01 00 00 00` — an event cut right after its PCR index — is accepted as a log with no events. -/
-theorem C18_finding_log_truncated (cfg : Cfg) : ¬ LogCanon cfg := by
+/-- the repaired code (`strictShortRead = true`): the full statement holds — the log ends only where
+    no byte of a further event remains, so nothing is dropped and nothing is completed -/
+theorem C18_Log_canon (cfg : Cfg) (hs : cfg.strict = true) : LogCanon cfg := by
+  intro b l r h
+  exact readLog_canon hs h
+
+/-- The ORIGINAL log reader took ANY error that wraps io.EOF as the end of the log, for every reader
+    kind: the header event followed by the four bytes `01 00 00 00` — an event cut right after its PCR
+    index — was accepted as a log with no events. (Repaired by bff5b71; `C18_Log_truncated_refused`.) -/
+theorem C18_finding_log_truncated (k : RKind) : ¬ LogCanon ⟨false, k⟩ := by
   intro h
-  have hb : readLog cfg ([0, 0, 0, 0, 3, 0, 0, 0] ++ zeros 20 ++ [1, 0, 0, 0, 0x61] ++ [1, 0, 0, 0]) =
+  have hb : readLog ⟨false, k⟩ ([0, 0, 0, 0, 3, 0, 0, 0] ++ zeros 20 ++ [1, 0, 0, 0, 0x61] ++ [1, 0, 0, 0]) =
       .ok ⟨⟨0, 3, zeros 20, .raw [0x61]⟩, []⟩ [] := by
-    obtain ⟨s, k⟩ := cfg
-    cases s <;> cases k <;> decide
+    cases k <;> decide
   obtain ⟨k, tl, h1, _, h3⟩ := h _ _ _ hb
   simp only [EventsEnc] at h3
   subst h3
   have := congrArg List.length h1
   simp [encPcrEventPad, encEventDataPad, zeros] at this
 
-/-- What does hold with the repaired readers: the accepted input is an encoding of exactly the returned
-    log followed by a tail on which the event reader reported io.EOF (empty for a complete log; a
-    truncated event otherwise). No returned event is zero-filled or invented. -/
-theorem C18_Log_canon_partial (cfg : Cfg) (hs : cfg.strict = true) (b r : Bytes) (l : Log) (h : readLog cfg b = .ok l r) :
-    ∃ bs tail, b = bs ++ tail ∧ LogEnc l bs ∧ readEvent2 cfg tail = .eof := readLog_canon hs h
+/-- repaired code: that same truncated log is refused, over every reader kind -/
+theorem C18_Log_truncated_refused (k : RKind) :
+    readLog ⟨true, k⟩ ([0, 0, 0, 0, 3, 0, 0, 0] ++ zeros 20 ++ [1, 0, 0, 0, 0x61] ++ [1, 0, 0, 0]) = .fail := by
+  cases k <;> decide
+
+/-- repaired code: the decoded log does not depend on the kind of reader (no zero-length Read is issued) -/
+theorem C18_Log_reader_independent (k k' : RKind) (b : Bytes) : readLog ⟨true, k⟩ b = readLog ⟨true, k'⟩ b :=
+  readLog_kind_irrelevant k k' b
 
 /-- a truncated header event is never accepted -/
 theorem C18_Log_short (cfg : Cfg) (b : Bytes) (h : b.length < 32) : (readLog cfg b).isOk = false := by
